@@ -507,6 +507,9 @@ func c19aLabelCases(t *testing.T, res *verifResult, rng interface{ Intn(int) int
 	}
 	for round := 0; round < rounds; round++ {
 		for fi, fam := range c19eLabelFamilies(rng) {
+			if fam.class == "long" && round >= 2 {
+				continue // kilobyte labels are repeated in every listing: two rounds of them are enough
+			}
 			kr := agent.NewKeyring()
 			// somebody else's identities: a plain key under the label itself, certificates under the neighbours
 			fk := pool[rng.Intn(len(pool))]
